@@ -42,6 +42,12 @@ PROC = {
     0x2016: ('le_rrf_complete', 'handle'),
     0x2019: ('enc_change', 'handle'),
 }
+# judged only in the directed runs, where the peer's host is known to answer the request (the virtual controller has no
+# connection-accept timeout, and a stock Device answers neither request by itself)
+PROC_DIRECTED = {
+    0x2064: ('cis_established', 'cis'),
+    0x043D: ('sync_conn_complete', 'acl-addr'),
+}
 
 
 def _all_command_classes():
@@ -116,6 +122,7 @@ class Monitor:
         self.cancel_seen = False
         self.classic_cancel: set = set()
         self.max_out = 0
+        self.proc = dict(PROC)
         sim.monitors.append(self.on_tap)
 
     def name(self, op):
@@ -172,7 +179,7 @@ class Monitor:
                 self.cur[1] += 1
                 if self.cur[1] > 1:
                     self.sim.violation_once('double', f'double-reply:{self.name(op)}', f'{self.cur[1]} replies to one command')
-                if code == 0x0F and status == 0 and op in PROC and self.cur[1] == 1:
+                if code == 0x0F and status == 0 and op in self.proc and self.cur[1] == 1:
                     self.add_expectation(op, self.cur[2])
                 if code == 0x0E and op == 0x200E and status == 0:
                     for e in self.expect:
@@ -184,10 +191,22 @@ class Monitor:
                 self.on_event(code, data)
 
     def add_expectation(self, op, cmd_bytes):
-        kind, keykind = PROC[op]
+        kind, keykind = self.proc[op]
         params = cmd_bytes[4:]
         ctrl = self.world[0].controller
         situation = ''
+        if keykind == 'cis':
+            # one expectation per CIS named by the command
+            n = params[0]
+            for i in range(n):
+                self.sim.probe('procedure_pending')
+                self.expect.append([op, kind, int.from_bytes(params[1 + 4 * i:3 + 4 * i], 'little') & 0x0FFF, 'cis'])  # (CIS handle, ACL handle) per entry
+            return
+        if keykind == 'acl-addr':
+            conn = ctrl.find_connection_by_handle(int.from_bytes(params[0:2], 'little') & 0x0FFF)
+            self.sim.probe('procedure_pending')
+            self.expect.append([op, kind, bytes(conn.peer_address) if conn is not None else None, 'handle=live' if conn is not None else 'handle=unknown'])
+            return
         if keykind == 'handle':
             key = int.from_bytes(params[0:2], 'little') & 0x0FFF
             live = ctrl.find_connection_by_handle(key) is not None
@@ -227,6 +246,8 @@ class Monitor:
             kind, key = 'rref_complete', int.from_bytes(data[4:6], 'little') & 0x0FFF
         elif code in (0x08, 0x59, 0x30):
             kind, key = 'enc_change', int.from_bytes(data[4:6], 'little') & 0x0FFF
+        elif code == 0x2C:
+            kind, key = 'sync_conn_complete', bytes(data[6:12])
         elif code == 0x3E:
             sub = data[3]
             if sub in (0x01, 0x0A, 0x29):
@@ -236,6 +257,8 @@ class Monitor:
                     kind, key = 'le_conn_complete', None
             elif sub == 0x04:
                 kind, key = 'le_rrf_complete', int.from_bytes(data[5:7], 'little') & 0x0FFF
+            elif sub == 0x19:
+                kind, key = 'cis_established', int.from_bytes(data[5:7], 'little') & 0x0FFF
         if kind is None:
             return
         if kind == 'disc_complete' and len(data) > 3 and data[3] == 0:
@@ -280,7 +303,7 @@ class Monitor:
                 continue
             if kind == 'conn_complete' and key in self.classic_cancel:
                 situation += ':cancelled'
-            if situation == 'handle=live':
+            if situation == 'handle=live' and isinstance(key, int):
                 situation += ':' + ('conn=gone' if 'conn-gone' in e[4:] else self.end_state(key))
             self.sim.violation_once(f'proc:{nm}:{situation}', f'procedure-not-concluded:{nm}:{situation}', f'{nm} accepted (Command Status 0) but its completion event never arrived')
 
@@ -428,7 +451,7 @@ def run_random(case):
 
 # --------------------------------------------------------------------------------------
 PROCS = ['le_create', 'le_create_ext', 'disconnect', 'le_read_remote_features', 'le_enable_encryption',
-         'classic_create', 'remote_name', 'classic_remote_features', 'classic_remote_ext_features']
+         'classic_create', 'remote_name', 'classic_remote_features', 'classic_remote_ext_features', 'le_create_cis', 'sco_setup']
 
 
 def gen_procedures(rng, tier, seed):
@@ -446,6 +469,11 @@ def gen_procedures(rng, tier, seed):
             case['situation'] = 'two_peers'
             case['n'] = 3
             case['stall_first'] = rng.choice([0, 0.02, 0.2])
+    elif proc in ('le_create_cis', 'sco_setup'):
+        # the peer's host accepts; the ACL connection may be disconnected (by either host) while the link is being set up
+        case['situation'] = rng.choice(['accept', 'accept+acl_disconnect', 'accept+acl_disconnect_by_peer', 'unknown_handle'])
+        case['accept_delay'] = rng.choice([0, 0, 0.005, 0.03])
+        case['n_cis'] = rng.choice([1, 1, 2])
     else:
         case['situation'] = rng.choice(['live', 'live', 'unknown_handle', 'peer_vanishes'])
         # role of the commanding host on that link, and the peer controller's capability set (a random subset of its LE features)
@@ -458,7 +486,7 @@ def run_procedures(case):
     from bumble import hci
 
     proc = case['proc']
-    classic = proc.startswith('classic') or proc == 'remote_name'
+    classic = proc.startswith('classic') or proc in ('remote_name', 'sco_setup')
     sim = Sim(case['seed'], case.get('profile', 'zero'), slow_node='N1')
     try:
         world = _setup(sim, case, classic=classic)
@@ -469,11 +497,19 @@ def run_procedures(case):
         if classic:
             if 'peer_present' in situation or situation in ('live', 'peer_vanishes', 'peer_vanishes+cancel'):
                 pass
-            if proc in ('classic_remote_features', 'classic_remote_ext_features') and situation != 'unknown_handle':
+            if proc in ('classic_remote_features', 'classic_remote_ext_features', 'sco_setup') and situation != 'unknown_handle':
+                got1 = []
+                n1.device.once('connection', got1.append)
                 conn = sim.must(n0.device.connect(n1.controller.public_address, transport=0), 'classic connect')
+                sim.loop.drive(lambda: bool(got1), 10.0)
                 sim.loop.settle()
                 handle = conn.handle
+                peer_conn = got1[0] if got1 else None
         else:
+            if proc == 'le_create_cis' and situation != 'unknown_handle':
+                cc, cp = world.connect_le(0, 1)
+                handle = cc.handle
+                peer_conn = cp
             if proc in ('disconnect', 'le_read_remote_features', 'le_enable_encryption') and situation != 'unknown_handle':
                 if case.get('peer_feature_mask') is not None:
                     n1.controller.le_features = hci.LeFeatureMask(int(n1.controller.le_features) & case['peer_feature_mask'])
@@ -486,6 +522,8 @@ def run_procedures(case):
                     cc, cp = world.connect_le(0, 1, own_address_type=hci.OwnAddressType.PUBLIC if case['own_public'] else None)
                     handle = cc.handle
         mon = Monitor(sim, world)
+        if proc in ('le_create_cis', 'sco_setup'):
+            mon.proc.update(PROC_DIRECTED)
 
         def vanish():
             sim.fault('peer_vanish')
@@ -531,10 +569,46 @@ def run_procedures(case):
         elif proc == 'remote_name':
             addr = n1.controller.public_address if 'absent' not in situation else hci.Address('DE:AD:BE:EF:00:01', hci.Address.PUBLIC_DEVICE_ADDRESS)
             cmds.append(hci.HCI_Remote_Name_Request_Command(bd_addr=addr, page_scan_repetition_mode=2, reserved=0, clock_offset=0))
+        elif proc == 'le_create_cis':
+            import warnings
+            from bumble.device import CigParameters
+            warnings.simplefilter('ignore', FutureWarning)
+
+            def on_cis_request(link):
+                async def answer():
+                    await asyncio.sleep(case.get('accept_delay', 0))
+                    try:
+                        await n1.device.accept_cis_request(link)
+                    except Exception:
+                        pass
+                sim.loop.create_task(answer())
+            n1.device.on('cis_request', on_cis_request)
+            nc = case.get('n_cis', 1)
+            cis_handles = sim.must(n0.device.setup_cig(CigParameters(cig_id=1, cis_parameters=[CigParameters.CisParameters(cis_id=2 + i) for i in range(nc)],
+                                                                    sdu_interval_c_to_p=0, sdu_interval_p_to_c=0)), 'cig')
+            cmds.append(hci.HCI_LE_Create_CIS_Command(cis_connection_handle=list(cis_handles), acl_connection_handle=[handle] * nc))
+        elif proc == 'sco_setup':
+            from bumble import hfp
+            params = hfp.ESCO_PARAMETERS[hfp.DefaultCodecParameters.ESCO_CVSD_S1].asdict()
+
+            def on_sco_request(conn, link_type):
+                async def answer():
+                    await asyncio.sleep(case.get('accept_delay', 0))
+                    try:
+                        await n1.device.send_command(hci.HCI_Enhanced_Accept_Synchronous_Connection_Request_Command(bd_addr=conn.peer_address, **params))
+                    except Exception:
+                        pass
+                sim.loop.create_task(answer())
+            n1.device.on('sco_request', on_sco_request)
+            cmds.append(hci.HCI_Enhanced_Setup_Synchronous_Connection_Command(connection_handle=handle, **params))
         elif proc == 'classic_remote_features':
             cmds.append(hci.HCI_Read_Remote_Supported_Features_Command(connection_handle=handle))
         elif proc == 'classic_remote_ext_features':
             cmds.append(hci.HCI_Read_Remote_Extended_Features_Command(connection_handle=handle, page_number=1))
+        if 'acl_disconnect_by_peer' in situation:
+            later.append((case['when'], lambda: sim.loop.create_task(n1.host.send_command(hci.HCI_Disconnect_Command(connection_handle=peer_conn.handle, reason=0x13)))))
+        elif 'acl_disconnect' in situation:
+            later.append((case['when'], lambda: sim.loop.create_task(host.send_command(hci.HCI_Disconnect_Command(connection_handle=handle, reason=0x13)))))
         if 'vanish' in situation:
             if case['when'] < 0.01:
                 vanish()
